@@ -25,9 +25,73 @@ def rand_bytes(rng, n):
     return [rng.randrange(256) for _ in range(n)]
 
 
-def gen_level_value(rng, bo, level, wbl, depth, sizes):
+def enum_raw_values(sch):
+    """{lower-cased enum type name or ('inline', id) ...}: raw wire values of the valid values of every enum of the
+    schema, found by walking the schema dict: {message name: node}, node = {'leaves': {leaf path tuple: [raw values]},
+    'groups': {group name: node}}.  Used to put VALID enum values into reference images (random bytes almost never
+    are one), so that decoding/visiting an enum reaches the value-tag branches and not only `unknown`."""
+    types = {t['name'].lower(): t for t in sch['types']}
+
+    def deref(e):
+        for _ in range(16):
+            if e.get('k') == 'ref':
+                e = types.get(e['type'].lower(), {})
+            else:
+                break
+        return e
+
+    def prim_of(enc):
+        for _ in range(16):
+            if enc in S.PRIM_SIZE:
+                return enc
+            t = types.get(enc.lower())
+            if not t:
+                return None
+            enc = t.get('prim') or t.get('enc')
+        return None
+
+    def raws(e):
+        p = prim_of(e['enc'])
+        if p is None:
+            return []
+        w = S.PRIM_SIZE[p]
+        out = []
+        for v in e['values']:
+            x = v['value']
+            if p == 'char':
+                out.append(ord(str(x)[0]))
+            else:
+                out.append(int(x) % (256 ** w))
+        return out
+
+    def walk_elem(e, path, acc):
+        e = deref(e)
+        if e.get('k') == 'enum':
+            acc[tuple(path)] = raws(e)
+        elif e.get('k') == 'composite':
+            for x in e['elems']:
+                walk_elem(x, path + [x['name']], acc)
+
+    def level(lv):
+        node = {'leaves': {}, 'groups': {}}
+        for f in lv['fields']:
+            t = types.get(f['type'].lower())
+            if t:
+                walk_elem(t, [f['name']], node['leaves'])
+        for g in lv['groups']:
+            node['groups'][g['name']] = level(g)
+        return node
+    return {m['name']: level(m) for m in sch['messages']}
+
+
+def gen_level_value(rng, bo, level, wbl, depth, sizes, enums=None):
     """value tree of one level: raw block of `wbl` bytes, groups, datas"""
     v = {'block': rand_bytes(rng, wbl), 'groups': [], 'datas': []}
+    if enums:
+        for lf in level['leaves']:
+            vals = enums['leaves'].get(tuple(lf['path']))
+            if vals and lf['off'] + lf['size'] <= wbl and rng.random() < 0.7:
+                v['block'][lf['off']:lf['off'] + lf['size']] = put(bo, lf['size'], rng.choice(vals))
     # floats: avoid signalling-NaN patterns being "quieted" by x87-free code: none on x86-64 SSE; keep raw
     for g in level['groups']:
         dim = g['dim']
@@ -40,7 +104,8 @@ def gen_level_value(rng, bo, level, wbl, depth, sizes):
         hdr = rand_bytes(rng, dim['size'])
         hdr[dim['blOff']:dim['blOff'] + dim['blSize']] = put(bo, dim['blSize'], ebl)
         hdr[dim['numOff']:dim['numOff'] + dim['numSize']] = put(bo, dim['numSize'], n)
-        entries = [gen_level_value(rng, bo, glevel, ebl, depth + 1, sizes) for _ in range(n)]
+        genums = enums['groups'].get(g['name']) if enums else None
+        entries = [gen_level_value(rng, bo, glevel, ebl, depth + 1, sizes, genums) for _ in range(n)]
         v['groups'].append({'hdr': hdr, 'entries': entries})
     for d in level['datas']:
         n = rng.choice(sizes['data'])
@@ -62,7 +127,7 @@ def gen_message_value(rng, bo, msg, schema_id, version, ext_ok=True, sizes=None)
     wbl = min(level['blockLen'] + ext, 256 ** bll['size'] - 1)
     hdr = rand_bytes(rng, msg['hdrSize'])
     hdr[bll['off']:bll['off'] + bll['size']] = put(bo, bll['size'], wbl)
-    root = gen_level_value(rng, bo, level, wbl, 0, sizes)
+    root = gen_level_value(rng, bo, level, wbl, 0, sizes, msg.get('_enums'))
     return {'hdr': hdr, 'root': root}
 
 
@@ -350,9 +415,23 @@ class SchemaCase:
         self.xml = os.path.join(self.dir, 'schema.xml')
         open(self.xml, 'w').write(S.to_xml(sch))
         self.sexp = S.to_sexp(sch)
-        self.layout = None
+        self._layout = None
         self.rc = None
         self.out = ''
+
+    @property
+    def layout(self):
+        return self._layout
+
+    @layout.setter
+    def layout(self, lay):
+        # attach the raw valid values of every enum leaf (see enum_raw_values) to the message layouts
+        if isinstance(lay, dict) and isinstance(lay.get('messages'), list):
+            tab = enum_raw_values(self.s)
+            for m in lay['messages']:
+                if isinstance(m, dict) and 'name' in m:
+                    m['_enums'] = tab.get(m['name'])
+        self._layout = lay
 
     def compile_schema(self, exe):
         self.rc, self.out = sbeppc.run(exe, self.xml, os.path.join(self.dir, 'gen'))
